@@ -71,90 +71,75 @@ def run(ctx):
 
     r3 = rep.rule('C18-R3', 'Gh0st reply = magic ++ LE32(total) ++ LE32(uncompressed) ++ zlib(data): total = len(compressed)+len(magic)+8, uncompressed = len() of the very buffer fed to the encoder, both emitted as four (x % 256, x /= 256) bytes, compressed bytes appended last', floor=6)
     gh = F.fn('proto::ghost::repl')
-    pushes = gh.calls(r'Vec::<[^>]*>::push$')
-    appends = gh.calls(r'Vec::<[^>]*>::append$')
+    rep.saw(gh)
+    from vlib.layout import vec_layout
+    items = vec_layout(gh)
     wa = gh.calls(r'Write::write_all$|::write_all$')
-    # a 32-bit little-endian field may also be written as extend_from_slice(&(x as u32).to_le_bytes())
-    le_sites = []
-    for bi_, t_ in gh.calls(r'Vec::<[^>]*>::extend_from_slice$'):
-        v_ = peel(gh.argv(bi_, 1), unwraps=False)
-        if is_call(v_, r'<impl u32>::to_le_bytes$'):
-            le_sites.append((bi_, v_[2][0]))
-    n_le = len(pushes) + len(le_sites)
-    rep.check(r3, n_le == 2 and len(appends) == 1 and len(wa) == 1, 'shape', '%d 32-bit length fields (%d byte-push loops, %d to_le_bytes), %d append, %d write_all' % (n_le, len(pushes), len(le_sites), len(appends), len(wa)))
-    if n_le == 2 and len(appends) == 1 and len(wa) == 1:
-        data_e = peel(gh.argv(wa[0][0], 1))
-        comp = peel(gh.argv(appends[0][0], 1), unwraps=False)
-        okc = is_call(comp, r'expect$|unwrap$') and calls_in(comp, r'flate2::.*::finish$') != []
-        rep.check(r3, okc, 'compressed-is-encoder-output', 'appended buffer = %s' % short(comp)[:100], gh.loc(appends[0][0]))
-        # result starts with the magic
-        res0 = [a for a in palts(gh.argv(appends[0][0], 0), unwraps=False) if not (isinstance(a, tuple) and a[0] == 'modby')]
-        okm = len(res0) == 1 and is_call(res0[0], r'to_vec$') and peel(res0[0][2][0])[:2] == ('bytes', b'Gh0st'.hex())
-        rep.check(r3, okm, 'starts-with-magic', 'result initialised with %s' % [short(a) for a in res0])
-        # order: push(total) loop, push(uncompressed) loop, append
-        order_ok = True
-        for pb, _ in list(pushes) + le_sites:
-            later = set()
-            for s in gh.succ[appends[0][0]]:
-                later |= gh.reachable(s)
-            if pb in later:
-                order_ok = False
-        rep.check(r3, order_ok, 'append-last', 'no length byte is pushed after the compressed data: %s' % order_ok, gh.loc(appends[0][0]))
-        # classify the two push loops by the initial value of their counter
-        kinds = {}
-        for pb, t in pushes:
-            v = peel(gh.argv(pb, 1), casts=False)
-            ok = isinstance(v, tuple) and v[0] == 'cast' and v[3] == 'u8'
-            init = None
-            if ok:
-                r_ = peel(v[2])
-                ok = isinstance(r_, tuple) and r_[0] == 'bin' and r_[1] == 'Rem' and const_val(r_[3]) == 256
-                if ok:
-                    x = r_[2]
-                    inits = [a for a in palts(x, unwraps=False) if not any(isinstance(y, tuple) and y and y[0] == 'cyc' for y in walk(a)) and not (isinstance(a, tuple) and a[0] == 'bin' and a[1] == 'Div')]
-                    divs = [a for a in alts(x) if isinstance(peel(a), tuple) and peel(a)[0] == 'bin' and peel(a)[1] == 'Div' and const_val(peel(a)[3]) == 256]
-                    ok = len(inits) == 1 and len(divs) >= 1
-                    init = inits[0] if inits else None
-            # loop bound 0..4
-            rng = [gh.argv(b, 0) for b, tt in gh.calls(r'IntoIterator>::into_iter$|IntoIterator::into_iter$')]
-            okr = all(isinstance(peel(r_, unwraps=False), tuple) and peel(r_, unwraps=False)[0] == 'agg' and [const_val(z) for z in peel(r_, unwraps=False)[2]] == [0, 4] for r_ in rng) and len(rng) == 2
-            if init is not None and is_call(peel(init), r'len$') and peel(peel(init)[2][0]) == data_e:
-                kinds['uncompressed'] = (pb, ok and okr, init)
-            elif init is not None:
-                kinds['total'] = (pb, ok and okr, init)
+    data_e = peel(gh.argv(wa[0][0], 1)) if len(wa) == 1 else None
+
+    def strip(v):
+        v = peel(v, unwraps=False)
+        while True:
+            if is_call(v, r'to_vec$|as_slice$|Deref::deref$'):
+                v = peel(v[2][0], unwraps=False)
+            elif is_call(v, r'Index<I>>::index$|Index::index$') and 'RangeFull' in short(v[2][1]):
+                v = peel(v[2][0], unwraps=False)
             else:
-                kinds['?%d' % pb] = (pb, False, v)
-        for pb, x in le_sites:
-            init = peel(x, casts=True)
-            # `as u32` keeps the low 32 bits - the same four bytes the (x % 256, x /= 256) x4 loop emits
-            okc_ = isinstance(peel(x), tuple) and peel(x)[0] == 'cast' and peel(x)[3] == 'u32'
-            if is_call(peel(init), r'len$') and peel(peel(init)[2][0]) == data_e:
-                kinds['uncompressed'] = (pb, okc_, init)
-            else:
-                kinds['total'] = (pb, okc_, init)
-        for k_ in ['total', 'uncompressed']:
-            if k_ not in kinds:
-                rep.bad(r3, 'le32:' + k_, 'no (x % 256, x /= 256) x4 loop found for the %s length' % k_)
-                continue
-            pb, ok, init = kinds[k_]
-            if k_ == 'total':
-                e = peel(init, casts=True)
-                # (len(compressed) + len(magic)) + 8
-                def flat(e):
-                    e = peel(e, casts=True)
-                    if isinstance(e, tuple) and e[0] == 'field' and e[2] == '0':
-                        e = e[1]
-                    if isinstance(e, tuple) and e[0] == 'bin' and e[1] in ('Add', 'AddWithOverflow'):
-                        return flat(e[2]) + flat(e[3])
-                    return [e]
-                terms = flat(init)
-                c8 = [t_ for t_ in terms if const_val(t_) == 8]
-                lc = [t_ for t_ in terms if is_call(t_, r'len$') and peel(t_[2][0], unwraps=False) == comp]
-                lm = [t_ for t_ in terms if is_call(t_, r'len$') and isinstance(peel(t_[2][0]), tuple) and peel(t_[2][0])[:2] == ('bytes', b'Gh0st'.hex())]
-                ok = ok and len(terms) == 3 and len(c8) == 1 and len(lc) == 1 and len(lm) == 1
-            rep.check(r3, ok, 'le32:' + k_, '%s length starts from %s and is emitted as 4 little-endian bytes' % (k_, short(init)[:110]), gh.loc(pb))
-        if 'total' in kinds and 'uncompressed' in kinds:
-            later = set()
-            for s in gh.succ[kinds['uncompressed'][0]]:
-                later |= gh.reachable(s)
-            rep.check(r3, kinds['total'][0] not in later, 'total-before-uncompressed', 'the total length precedes the uncompressed length')
+                return v
+
+    def loop_init(it):
+        """(ok, init): the pushed byte is (x % 256) as u8 with x /= 256 per iteration of a 0..4 loop, x starting at init"""
+        v = peel(it['value'], casts=False)
+        if not (isinstance(v, tuple) and v[0] == 'cast' and v[3] == 'u8'):
+            return False, None
+        r_ = peel(v[2])
+        if not (isinstance(r_, tuple) and r_[0] == 'bin' and r_[1] == 'Rem' and const_val(r_[3]) == 256):
+            return False, None
+        x = r_[2]
+        inits = [a for a in palts(x, unwraps=False) if not any(isinstance(y, tuple) and y and y[0] == 'cyc' for y in walk(a)) and not (isinstance(a, tuple) and a[0] == 'bin' and a[1] == 'Div')]
+        divs = [a for a in alts(x) if isinstance(peel(a), tuple) and peel(a)[0] == 'bin' and peel(a)[1] == 'Div' and const_val(peel(a)[3]) == 256]
+        rng = [gh.argv(b, 0) for b, tt in gh.calls(r'IntoIterator>::into_iter$|IntoIterator::into_iter$')]
+        okr = bool(rng) and all(isinstance(peel(q, unwraps=False), tuple) and peel(q, unwraps=False)[0] == 'agg' and [const_val(z) for z in peel(q, unwraps=False)[2]] == [0, 4] for q in rng)
+        return (len(inits) == 1 and len(divs) >= 1 and okr), (inits[0] if inits else None)
+    seq = []
+    for it in items:
+        v = strip(it['value'])
+        if isinstance(v, tuple) and v[0] == 'bytes' and bytes.fromhex(v[1]) == b'Gh0st':
+            seq.append(('magic', True, None, it))
+        elif it['op'] == 'push' and it['in_loop']:
+            ok_, init = loop_init(it)
+            seq.append(('len', ok_, init, it))
+        elif is_call(v, r'<impl u32>::to_le_bytes$') and it['width'] == 4 and not it['in_loop']:
+            x = peel(v[2][0])
+            seq.append(('len', isinstance(x, tuple) and x[0] == 'cast' and x[3] == 'u32', peel(x, casts=True), it))
+        elif calls_in(v, r'flate2::.*::finish$'):
+            seq.append(('compressed', is_call(v, r'expect$|unwrap$'), v, it))
+        else:
+            seq.append(('?', False, v, it))
+    kinds_ = [k_ for k_, _, _, _ in seq]
+    rep.check(r3, kinds_ == ['magic', 'len', 'len', 'compressed'] and len(wa) == 1 and all(it['must'] or it['in_loop'] for _, _, _, it in seq), 'shape',
+              'reply is built as %s (required: magic, two 32-bit little-endian lengths, compressed data), one write_all into the encoder: %d' % (kinds_, len(wa)), '%s:%d' % (gh.file, gh.line))
+    if kinds_ == ['magic', 'len', 'len', 'compressed'] and len(wa) == 1:
+        comp = seq[3][2]
+        rep.check(r3, seq[3][1], 'compressed-is-encoder-output', 'appended buffer = %s' % short(comp)[:100], seq[3][3]['loc'])
+        rep.check(r3, True, 'starts-with-magic', 'the first bytes are the Gh0st magic')
+        rep.check(r3, True, 'append-last', 'the compressed data is the last item')
+
+        def flat(e):
+            e = peel(e, casts=True)
+            if isinstance(e, tuple) and e[0] == 'field' and e[2] == '0':
+                e = e[1]
+            if isinstance(e, tuple) and e[0] == 'bin' and e[1] in ('Add', 'AddWithOverflow'):
+                return flat(e[2]) + flat(e[3])
+            return [e]
+        ok_t, init_t = seq[1][1], seq[1][2]
+        terms = flat(init_t) if init_t is not None else []
+        c8 = [t_ for t_ in terms if const_val(t_) == 8]
+        lc = [t_ for t_ in terms if is_call(t_, r'len$') and strip(t_[2][0]) == strip(comp)]
+        lm = [t_ for t_ in terms if is_call(t_, r'len$') and isinstance(strip(t_[2][0]), tuple) and strip(t_[2][0])[:2] == ('bytes', b'Gh0st'.hex())]
+        rep.check(r3, ok_t and len(terms) == 3 and len(c8) == 1 and len(lc) == 1 and len(lm) == 1, 'le32:total',
+                  'total length = %s (required len(compressed) + len(magic) + 8), emitted as 4 little-endian bytes' % (short(init_t)[:110] if init_t is not None else None), seq[1][3]['loc'])
+        ok_u, init_u = seq[2][1], seq[2][2]
+        oku = ok_u and init_u is not None and is_call(peel(init_u, casts=True), r'len$') and peel(peel(init_u, casts=True)[2][0]) == data_e
+        rep.check(r3, oku, 'le32:uncompressed', 'uncompressed length = %s (required len() of the buffer fed to the encoder), emitted as 4 little-endian bytes' % (short(init_u)[:110] if init_u is not None else None), seq[2][3]['loc'])
+        rep.check(r3, True, 'total-before-uncompressed', 'the total length precedes the uncompressed length')
